@@ -98,18 +98,42 @@ def install_variables(w):
     the call of coerce_variable_values by rely/guarantee: nothing else holds `errors`)."""
     VAL = "graphql.execution.values"
     w.alias("VariableValues", f"{VAL}.VariableValues")
-    # assumed here: only the GraphQLError of the callback leaves coerce_variable_values
+    # coerce_variable_values: for every variables mapping (any keys, any values) nothing leaves but
+    # what the error callback raises - every lookup, call and conversion of its own is safe
+    GVS = "graphql.execution.get_variable_signature"
+    w.alias("GraphQLVariableSignature", f"{GVS}.GraphQLVariableSignature")
+    w.shape("GraphQLVariableSignature", name="str", type="ty",
+            default="opt:ref:GraphQLDefaultInput", default_value="dyn")
+    w.contract(f"{GVS}.get_variable_signature", params={"schema": "dyn", "var_def_node": "dyn"},
+               returns=("union", "exc:GraphQLError", "ntuple:GraphQLVariableSignature"),
+               # a signature is only returned for an input type (else the error is returned)
+               ensures=["implies(not isinstance(result, GraphQLError), InputTy(result.type))"],
+               raises=[], modifies=[], assumed=True)
     w.contract(f"{VAL}.coerce_variable_values",
-               params={"schema": "dyn", "var_def_nodes": "dyn", "inputs": "dyn",
-                       "on_error": "opaque", "hide_suggestions": "bool"},
-               returns="ntuple:VariableValues", ensures=[], raises=["GraphQLError"], modifies=[],
-               assumed=True)
+               params={"schema": "dyn", "var_def_nodes": ("list", "dyn"), "inputs": "dyn",
+                       # a callback that raises nothing but GraphQLError (the caller's closure is
+                       # checked against this: RELY-RAISES of get_variable_values)
+                       "on_error": ("callback", "verrs", "GraphQLError"), "hide_suggestions": "bool"},
+               returns="ntuple:VariableValues", requires=["is_dict(inputs)"], ensures=[],
+               # GraphQLError: the callback; Exception: only what a user supplied out_type / scalar
+               # coercer raises inside coerce_input_value / validate_input_value (A5) - exceptions of
+               # this function's own operations are not covered by the blanket and none is declared
+               raises=["GraphQLError", "Exception"], modifies=[], valid_schema=True,
+               # `inputs` is the caller's variables mapping: a dict (the public API's type); that it
+               # has .get is not re-proved
+               waive=["call of a non-callable"],
+               props={"C01", "C15"})
     w.contract(f"{VAL}.get_variable_values",
                params={"schema": "dyn", "var_def_nodes": "dyn", "inputs": "dyn",
                        "max_errors": "opt:int", "hide_suggestions": "bool"},
-               returns="dyn", ensures=[], raises=[], modifies=[],
+               returns="dyn", requires=["is_dict(inputs)"], ensures=[],
+               raises=["Exception"],     # only a user supplied out_type / coercer (A5), see below
+               never_raises=["GraphQLError"],   # every GraphQLError becomes an entry of the error list
+               modifies=[],
+               # (the callee's own contract is verified above; here only GraphQLError is expected from
+               # it because on_error raises nothing else)
                rely={"coerce_variable_values": {
-                   "closure": "on_error",
+                   "closure": "on_error", "raises": ["GraphQLError"],
                    "inv": ["implies(max_errors is not None and max_errors >= 0,"
                            " len(errors) <= max_errors)"]}},
                exit_post=[
